@@ -13,10 +13,10 @@ ASAN_T = [{"flavor": "asan", "shards": 4, "scale": 0.015, "extra": {"impl": "map
 BOTH_T = [{"flavor": "debug", "shards": 8}, {"flavor": "release", "shards": 8}]
 
 
-def m32(scale, shards=4, timeout=3000):
+def m32(scale, shards=4, timeout=3000, extra=None):
     """the pure properties once more on a 32-bit target (i686 under Miri): usize is 32 bits wide there, which is where the
     crate's own cfg(target_pointer_width) branches and every u64<->usize conversion behave differently"""
-    return [{"flavor": "miri32", "shards": shards, "scale": scale, "tag": "i686", "timeout": timeout}]
+    return [{"flavor": "miri32", "shards": shards, "scale": scale, "tag": "i686", "timeout": timeout, "extra": extra or {}}]
 
 
 COMMON_ASSUME = [
@@ -34,7 +34,7 @@ PLANS = {
                 "one program op; distinct_nontrivial counts distinct (build profile, operation, outcome ok/none/panic, input class / "
                 "address half) tuples.",
         "assumptions": COMMON_ASSUME + ["unsafe constructors (new_unsafe, from_start_address_unchecked) are outside the property"],
-        "quick": BOTH_Q, "thorough": BOTH_T + [{"flavor": "miri", "shards": 2, "scale": 3e-07, "tag": "miri-slice", "timeout": 3000}] + m32(3e-07, 2),
+        "quick": BOTH_Q + m32(3e-06, 2, 800, {"progs": 40}), "thorough": BOTH_T + [{"flavor": "miri", "shards": 2, "scale": 3e-07, "tag": "miri-slice", "timeout": 3000}] + m32(3e-07, 8, 3000, {"progs": 120}),
     },
     "C04": {
         "level": "exploration",
@@ -44,7 +44,7 @@ PLANS = {
                 "512^3 2MiB tuples, every 4KiB index position over all 512 values x 8^3 universe; plus random canonical addresses and "
                 "index quadruples. distinct_nontrivial counts distinct (profile, direction, size, input class, half, p4 class) tuples.",
         "assumptions": COMMON_ASSUME,
-        "quick": BOTH_Q, "thorough": BOTH_T + m32(1e-06),
+        "quick": BOTH_Q + m32(1e-06, 1, 800), "thorough": BOTH_T + m32(1e-06),
     },
     "C05": {
         "level": "exploration",
@@ -65,7 +65,7 @@ PLANS = {
                 "as the panic case; containing_address/from_start_address for pages and frames of the three sizes. "
                 "distinct_nontrivial counts distinct (profile, type, alignment exponent or npot, address class, ok/panic) tuples.",
         "assumptions": COMMON_ASSUME + ["alignments above 2^47 on VirtAddr are only checked for canonicity (the property excludes them)"],
-        "quick": BOTH_Q, "thorough": BOTH_T + m32(2e-06),
+        "quick": BOTH_Q + m32(1e-04, 1, 800), "thorough": BOTH_T + m32(2e-06),
     },
     "C07": {
         "level": "exploration",
@@ -88,7 +88,7 @@ PLANS = {
                 "after writes through each path, is_empty/zero/new/clone/default on zero and garbage memory. distinct_nontrivial counts "
                 "distinct (profile, op, resulting state class) tuples.",
         "assumptions": COMMON_ASSUME + ["flags restricted to bits 0-11 and 52-63 as the property states (bit 12 overlaps the address field)"],
-        "quick": BOTH_Q, "thorough": BOTH_T + [{"flavor": "miri", "shards": 2, "scale": 2e-06, "tag": "miri-slice", "timeout": 3000}] + m32(2e-06, 2),
+        "quick": BOTH_Q + m32(2e-05, 1, 800), "thorough": BOTH_T + [{"flavor": "miri", "shards": 2, "scale": 2e-06, "tag": "miri-slice", "timeout": 3000}] + m32(2e-06, 2),
     },
 
     "C01": {
